@@ -352,8 +352,11 @@ class Ctx:
         ev = {"property_id": self.prop, "tier": self.tier, "seed": self.seed, "level": level,
               "coverage": cov, "assumptions": self.assumptions, "wall_s": round(wall, 2),
               "violations": len(self.violations)}
-        os.makedirs(os.path.join(VERIF, "evidence"), exist_ok=True)
-        with open(os.path.join(VERIF, "evidence", self.prop + ".json"), "w") as f:
+        # evidence under /verif/evidence describes /repo only; runs against another tree (--repo: seeded changes,
+        # builders' worktrees) leave their evidence next to the replays
+        evdir = os.path.join(VERIF, "evidence") if self.repo == "/repo" else os.path.join(VERIF, "replays", "evidence-other-trees")
+        os.makedirs(evdir, exist_ok=True)
+        with open(os.path.join(evdir, self.prop + ".json"), "w") as f:
             json.dump(ev, f, indent=1, default=str)
         seen = set()
         for key, desc, path in self.violations:
